@@ -76,7 +76,54 @@ def jobs_c19(tier):
     return js
 
 
+def jobs_vec(tier):
+    js = levels("std", "fast") + [J("nosimd", "fast"), J("std", "checked", "host", 0.25), J("nosimd", "checked", "host", 0.5)]
+    if tier != "quick":
+        js += [J("std", "dev", "host", 0.01), J("nosimd", "dev", "host", 0.02)]
+    return js
+
+
+NOSTD = ["nostd-sse2", "nostd-ssse3", "nostd-sse41", "nostd-avx", "nostd-avx2"]
+
+
+def jobs_c03(tier):
+    js = [J("std", "fast", "host")] + levels("std", "fast") + [J("nosimd", "fast"), J("nosimd", "checked", scale=0.5)]
+    js += [J(c, "fast") for c in NOSTD]
+    js += [J("std", "checked", "sse2", 0.5), J("std", "checked", "avx2", 0.5)]
+    if tier != "quick":
+        js += levels("std", "checked", 0.5) + [J("std", "dev", "host", 0.02), J("nosimd", "dev", "host", 0.02)]
+    return js
+
+
 PLANS = {
+    "C03": {
+        "jobs": jobs_c03,
+        "build_failure_is_violation": True,
+        "rule": "the C01 (7 cipher types), C14 (block API), BLAKE x4 and JH x4 generators, every case compared with the reference model, "
+                "executed under: run-time dispatch with the host level forced to SSE2/SSSE3/SSE4.1/AVX/AVX2 through the hook plus the real "
+                "host, the portable no_simd build, and the five no-std compile-time dispatch arms (-C target-feature); plus the public "
+                "generic bodies jh f8_impl::<M> and blake u32x4/u64x4::put_block::<M> instantiated for every Machine on generated "
+                "arbitrary chaining values, blocks and counters against the reference compression functions; a configuration that does "
+                "not build is a violation; non-trivial = request/message of >= 1 byte resp. every direct case; distinct = FNV-1a of "
+                "(configuration, case)",
+    },
+    "C12": {
+        "jobs": jobs_vec,
+        "rule": "one generated operand set (four 512-bit values: uniform 60 %, zero, all-ones, single bit, complement of a single bit, "
+                "byte ramp, 0x80/0x7f bytes, one all-ones word) is run through every (vector type, operation) cell required by the Machine "
+                "trait bounds - 10 types x {xor, xor_assign, and, or, not, andnot, rotate_each_word_right 7/8/11/12/16/20/24/25 (+32 for "
+                "64/128-bit words), add, add_assign, bswap, shuffle1230/2301/3012, shuffle_lane_words*, swap1..64} = 202 cells - on each of "
+                "the back ends SSE2, SSSE3, SSE4.1, AVX, AVX2 and portable; oracle: byte-level scalar model of the named operation; "
+                "non-trivial = first operand not all-zero; distinct = FNV-1a of (back end, operand set)",
+    },
+    "C13": {
+        "jobs": jobs_vec,
+        "rule": "one generated operand set is run through 152 data-movement cells per back end: unpack/into storage, to_lanes, from_lanes, "
+                "Machine::vec, vzip, insert/extract at every element index (words and whole lanes), transpose4, to_scalars, read_le/"
+                "read_be/write_le/write_be and their round trips, storage views (Into<[u32;N]|[u64;N]|[u128;N]>, From<[u32;4]|[u64;4]>, "
+                "new128/split128, Default, PartialEq incl. operands differing only in an upper lane) against little-endian word packing "
+                "of one canonical byte string; non-trivial = first operand not all-zero; distinct = FNV-1a of (back end, operand set)",
+    },
     "C09": {
         "jobs": jobs_tf,
         "rule": "generated (size in 256/512/1024, key uniform/structured or with the key-schedule parity word forced to 0 / all-ones, two "
